@@ -393,3 +393,23 @@ PROPS["C15"] = dict(
         "within 2 ms of a node's UseKey call either key is accepted as its primary",
     ],
 )
+
+PROPS["C11"] = dict(
+    title="Piggyback packing is lossless and stays within the packet budget",
+    pkg="./props/c11",
+    level="exploration",
+    rule=("one real sender node (UDPBufferSize 400-65000, label 0/5/255 bytes, no encryption or version 0/1, compression on/off) with one scripted peer "
+          "advertising PMax 2-5 (checksum at 5); 1-5 batches fill the queues: up to 700 tiny user broadcasts (0-2 bytes, so that far more than 255 parts fit), "
+          "mixtures, messages of maximal size for the budget, up to 60 membership broadcasts with 0-512 bytes of metadata, handed out by a delegate that "
+          "honours its (overhead, limit) contract; packing is triggered by a gossip tick, an inbound ping (ack + piggyback) or an outbound probe. Oracle: the "
+          "independent decoder parses every packet strictly (no truncated part, no undeclared trailing bytes), the multiset of user parts on the wire equals what "
+          "the delegate handed out (nothing lost, nothing invented), and every packet containing a queued broadcast is at most UDPBufferSize bytes as seen by "
+          "the transport (after label wrapping). non-trivial = some packet with >= 2 parts; distinct = distinct plans"),
+    tests=[
+        dict(name="pack", run="^TestPiggybackPacking$",
+             quick=dict(shards=16, checks=60, timeout=600),
+             thorough=dict(shards=16, checks=3000, timeout=3400)),
+    ],
+    required_labels=dict(both=["TestPiggybackPacking/more-than-255-parts", "TestPiggybackPacking/within-16-bytes-of-limit", "TestPiggybackPacking/crc"]),
+    assumptions=PUPPET_ASSUMPTIONS,
+)
